@@ -282,7 +282,15 @@ let handle (line : string) : string =
   (match next t with
    | "LIM" -> lim := next_int t; Buffer.add_string b "OK"
    | "DROP" -> let _ = next t in Buffer.add_string b "OK"
-   | "D" ->
+   | "DADD" ->
+       let id = next t in
+       let op = parse_dop t in
+       Hashtbl.replace dicts id (dstep (get_dict id) op); Buffer.add_string b "OK"
+   | "DFORK" ->
+       let src = get_dict (next t) in
+       let dst = next t in
+       Hashtbl.replace dicts dst src; Buffer.add_string b "OK"
+   | "D" | "DSWAP" ->
        let id = next t in let k = next_int t in
        let ops = parse_list t parse_dop k in
        Hashtbl.replace dicts id (drun ops); Buffer.add_string b "OK"
